@@ -88,6 +88,10 @@ def gen_cases(tier, seed):
     from .. import util_knots as K
     for d in K.tall_curve_shapes(tier) + K.tall_surface_shapes(tier):
         cases.append(dict(shape=d, tall=True))
+    for d in K.variety_shapes(tier):
+        cases.append(dict(shape=d, variety=True))
+    for d in K.tiny_span_shapes(tier):
+        cases.append(dict(shape=d, variety=True))
     degs = [1, 2, 3]
     for pu, pv in itertools.product(degs, degs):
         for ku in A.rep_kvs(pu, 1 if q else 2):
